@@ -105,7 +105,7 @@ def serBlock (b : Block) : List UInt8 :=
 
 def serialize (bs : List Block) : List UInt8 := bs.flatMap serBlock
 
-def compress (inp : Bytes) : List UInt8 := serialize (compressBlocks inp)
+@[irreducible] def compress (inp : Bytes) : List UInt8 := serialize (compressBlocks inp)
 
 /-! ## Decompressor -/
 inductive Err | unexpectedEnd | invalidOffset
@@ -144,7 +144,7 @@ def decLoop : Nat → List UInt8 → Bytes → Except Err Bytes
           if o0.toNat + 256 * o1.toNat = 0 ∨ o0.toNat + 256 * o1.toNat > out1.size then .error .invalidOffset
           else decLoop f r4 (dupLoop out1 (out1.size - (o0.toNat + 256 * o1.toNat)) ml)
 
-def decompress (c : List UInt8) : Except Err Bytes := decLoop (c.length + 1) c #[]
+@[irreducible] def decompress (c : List UInt8) : Except Err Bytes := decLoop (c.length + 1) c #[]
 
 
 
